@@ -354,7 +354,8 @@ class HSM2ProtocolLedger(HSM2Protocol):
         try:
             self.ensure_connection()
             state = self.hsm2dongle.get_blockchain_state()
-        except (HSM2DongleError, HSM2DongleTimeoutError) as e:
+        except (HSM2DongleError, HSM2DongleErrorResult,
+                HSM2DongleTimeoutError) as e:
             self.logger.error("Dongle error getting blockchain state: %s", str(e))
             return (self.ERROR_CODE_DEVICE,)
         except HSM2DongleCommError:
@@ -385,7 +386,8 @@ class HSM2ProtocolLedger(HSM2Protocol):
         try:
             self.ensure_connection()
             self.hsm2dongle.reset_advance_blockchain()
-        except (HSM2DongleError, HSM2DongleTimeoutError) as e:
+        except (HSM2DongleError, HSM2DongleErrorResult,
+                HSM2DongleTimeoutError) as e:
             self.logger.error("Dongle error resetting advance blockchain: %s", str(e))
             return (self.ERROR_CODE_DEVICE,)
         except HSM2DongleCommError:
@@ -466,7 +468,8 @@ class HSM2ProtocolLedger(HSM2Protocol):
                 "minimum_difficulty": params.min_required_difficulty,
                 "network": params.network.name.lower()}
             })
-        except (HSM2DongleError, HSM2DongleTimeoutError) as e:
+        except (HSM2DongleError, HSM2DongleErrorResult,
+                HSM2DongleTimeoutError) as e:
             self.logger.error("Dongle error in get parameters: %s", str(e))
             return (self.ERROR_CODE_DEVICE,)
         except HSM2DongleCommError:
@@ -568,7 +571,8 @@ class HSM2ProtocolLedger(HSM2Protocol):
                     "s": heartbeat["signature"].s
                 }
             })
-        except (HSM2DongleError, HSM2DongleTimeoutError) as e:
+        except (HSM2DongleError, HSM2DongleErrorResult,
+                HSM2DongleTimeoutError) as e:
             self.logger.error("Dongle error in UI heartbeat: %s", str(e))
             return (self.ERROR_CODE_DEVICE,)
         except HSM2DongleCommError:
